@@ -14,7 +14,8 @@ def run(ctx):
     want = ("outbound:forged-progress", "outbound:close-before-ack", "outbound:pubrel-without-publish")
     from .c18 import mon_connack
     from .c11 import mon_requests
-    mon = lambda tr, sc: SC.mon_sanity(tr) + [h for h in SC.mon_outbound(tr) if h[0] in want] + mon_connack(tr, sc) + SC.mon_deadline(tr) + \
+    from .c10 import mon_redial
+    mon = lambda tr, sc: SC.mon_sanity(tr) + [h for h in SC.mon_outbound(tr) if h[0] in want] + mon_connack(tr, sc) + SC.mon_deadline(tr) + mon_redial(tr, sc) + \
         [h for h in mon_requests(tr, sc) if h[0].startswith("own-response")]
     v, stats, hist, samples, nd = SC.run_property(ctx, MODULE, PROFILE, 300, 6000, [mon], keep, length=(8, 30))
     return SC.finish(ctx, v, stats, hist, samples, nd,
